@@ -4,7 +4,7 @@ HOOK_COMMITS = ['2245d3a', '7959c84']  # filled from `git -C /repo log --grep 'v
 
 NOTES = ("Technique family: machine-checked proof in Lean 4. Every check = lake build of the property's theorems (audited with #print axioms, "
          "no sorry/native_decide) + a correspondence run of the executable Lean model against the real Go code on the same op lines + a "
-         "property monitor on the real code's traces. See DESIGN.md. fix: commits in /repo: f53f956 (C05), d411d81 (C20).")
+         "property monitor on the real code's traces. See DESIGN.md. fix: commits in /repo: f53f956 (C05), d411d81 (C20), 86baac2 (C01), C19 (RequireAndVerifyClientCert).")
 
 NOT_APPLICABLE = {}
 
@@ -39,5 +39,24 @@ META = {
         design_ref="DESIGN.md §5 C20",
         note=BASE_NOTE + "Modelled not verified: the handler body once entered (that is C06/C01-C04), log.CapturePanic, Go's mutex/slices.Grow semantics.",
         technique="Lean 4 invariant proof (lock state, totality) + model/implementation correspondence with wedge detection",
+    ),
+    "C02": dict(
+        text="Theorems over the fine-grained routing machine for ALL shard counts and ALL fault-free action lists (every interleaving): what a target "
+             "stream received of a source is always a prefix of that source's tasks owned by the target, in source order (no duplicate, no reordering, no "
+             "foreign shard), and equals it once nothing is in flight; ids on a source stream are distinct; every target stream is well-formed for "
+             "Temporal's TrackTasks (ids strictly increase across messages, task-bearing highs exceed last id and all earlier highs). Model tied to the real "
+             "sender/receiver/shard manager by step-for-step differential runs in synctest bubbles plus a direct monitor of the statement (real hash, payload equality).",
+        design_ref="DESIGN.md §5 C02",
+        note=BASE_NOTE + "Modelled not verified: gRPC/Go runtime scheduling (the harness explores it through synctest), farmhash (owner is a model input; the real hash is used by the harness monitor), Temporal's TrackTasks (its acceptance condition is restated as StreamWF).",
+        technique="Lean 4 invariant proof over a fine-grained transition system (all interleavings) + model/implementation correspondence",
+    ),
+    "C19": dict(
+        text="Decision-logic theorems for ALL configurations and credentials: with verification configured an admitted client/server chains to the configured CA "
+             "(and matches the name), unloadable or CA-less bundles never yield an endpoint, skipVerify is the only relaxation; pre-fix RequireAnyClientCert "
+             "refuted by a kernel-checked witness. Model tied to GetServerTLSConfig/GetClientTLSConfig field by field and to crypto/tls by the full cross "
+             "product of real handshakes, including the TCP and mux listeners.",
+        design_ref="DESIGN.md §5 C19",
+        note=BASE_NOTE + "Modelled not verified: crypto/x509 chain building and crypto/tls itself (validated by the handshakes of each run).",
+        technique="Lean 4 decision-logic theorems + exhaustive model/implementation correspondence by real TLS handshakes",
     ),
 }
